@@ -36,11 +36,13 @@ FIXED_TAGS = [
     "krrood.adapters.nothere.X", "krrood..adapters.X", "dataclasses.dataclass", "dataclasses.MISSING", "enum.Enum",
     "abc.ABC", "decimal", "uuid", "uuid.uuid4", "uuid.NAMESPACE_DNS", "collections.abc", "collections.abc.Mapping",
     "sys.modules", "sys.path", "__main__.X", "__main__", "builtins.", ".builtins", "1.2", "1", "a.1", "a-b.c", "a/b.c",
+    "models.jsonmodel.Outer", "models.jsonmodel.Outer.NestedNode", "models.jsonmodel.Outer.Missing", "models.jsonmodel.Outer.NestedNode.x",
+    "models.jsonmodel.Node0.name", "models.jsonmodel.Node0._from_json", "json.decoder.JSONDecoder.decode", "json.decoder.JSONDecoder.decode.x",
     "os.path.join", "os.path.", "a\x00b.c", "os.\x00", "a" * 300 + ".b", "importlib.import_module", "types.ModuleType", "types.FunctionType", "functools.partial",
 ]
 FRAGS = ["os", "path", "json", "krrood", "adapters", "json_serializer", "models", "jsonmodel", "badpkg", "x", "X",
          "uuid", "UUID", "typing", "List", "T", "", " ", "1", "builtins", "int", "dumps", "a_function", "TV",
-         "NotSerializable", "sys", "decimal", "Decimal", "Node0", "nothere"]
+         "NotSerializable", "sys", "decimal", "Decimal", "Node0", "nothere", "Outer", "NestedNode", "JSONDecoder", "decoder"]
 
 
 def plan(tier):
@@ -92,15 +94,31 @@ def independent_valid(tag):
     mod, _, cls = tag.rpartition(".")
     if not mod or mod.startswith("."):
         return False
+    import inspect
     try:
         m = importlib.import_module(mod)
     except BaseException:
-        return False
+        # the qualified name of a class defined inside other classes: module.Outer.Inner
+        m = None
+        parts = mod.split(".")
+        for i in range(len(parts) - 1, 0, -1):
+            try:
+                found = importlib.import_module(".".join(parts[:i]))
+            except BaseException:
+                continue
+            for name in parts[i:]:
+                found = vars(found).get(name) if (inspect.ismodule(found) or isinstance(found, type)) else None
+                if not isinstance(found, type):
+                    found = None
+                    break
+            m = found
+            break
+        if m is None:
+            return False
     try:
         obj = getattr(m, cls, None) if cls else None
     except Exception:
         return False
-    import inspect
     if not isinstance(obj, type) or inspect.isabstract(obj):
         return False
     if issubclass(obj, SubclassJSONSerializer):
